@@ -28,7 +28,7 @@ from .parse import (
     StatusAtt,
 )
 from .throttle import check_allow, login_failed
-from .utils import quoted
+from .utils import one_line, quoted
 
 # Allow circular imports for annotations
 #
@@ -273,7 +273,7 @@ class BaseClientHandler:
             )
             if self.server and imap_command.command:
                 self.server.num_failed_commands[imap_command.command] += 1
-            result = f"{imap_command.tag} NO {e}\r\n"
+            result = f"{imap_command.tag} NO {one_line(str(e))}\r\n"
             await self.client.push(result)
             return
         except Bad as e:
@@ -282,7 +282,7 @@ class BaseClientHandler:
             )
             if self.server and imap_command.command:
                 self.server.num_failed_commands[imap_command.command] += 1
-            result = f"{imap_command.tag} BAD {e}\r\n"
+            result = f"{imap_command.tag} BAD {one_line(str(e))}\r\n"
             await self.client.push(result)
             return
         except TimeoutError:
@@ -328,8 +328,10 @@ class BaseClientHandler:
             # The text of an exception can be anything. Keep the response on
             # one line and terminate it properly.
             #
-            err_text = " ".join(str(e).split())
-            result = f"{imap_command.tag} BAD Unhandled exception: {err_text}\r\n"
+            result = (
+                f"{imap_command.tag} BAD Unhandled exception: "
+                f"{one_line(str(e))}\r\n"
+            )
             try:
                 await self.client.push(result)
             except Exception:
